@@ -246,7 +246,7 @@ Section Peel.
 
   (* ---- the peeling loop, for any sound and complete path finder ---- *)
   Variable find : (edge -> Z) -> mb_outcome.
-  Hypothesis find_sound : forall f b p, nonneg f -> conserving f -> find f = MBPath b p ->
+  Hypothesis find_sound : forall f b p, nonneg f -> find f = MBPath b p ->
     0 < b /\ ss_path p /\ (forall e, In e (pairs p) -> b <= f e) /\ (exists e, In e (pairs p) /\ f e = b).
   Hypothesis find_complete : forall f, nonneg f -> conserving f -> find f = MBNoPath ->
     forall p, ss_path p -> exists e, In e (pairs p) /\ f e <= 0.
@@ -260,7 +260,7 @@ Section Peel.
   Proof.
     induction fuel as [|k IH]; intros f N C Hf; [lia|]. cbn [peel].
     destruct (find f) as [b p| |] eqn:F.
-    - destruct (find_sound f b p N C F) as (Hb & Hp & Hmin & Hex).
+    - destruct (find_sound f b p N F) as (Hb & Hp & Hmin & Hex).
       assert (HG : incl (pairs p) G) by (destruct Hp as (_ & HG & _); exact HG).
       pose proof (npos_sub_lt f b p N HG Hb Hmin Hex) as Hlt.
       destruct (IH (sub f b p)) as (D & HD & He & HF & HL).
@@ -277,6 +277,33 @@ Section Peel.
       destruct (Z_lt_le_dec 0 (f e)) as [Hpos|Hle]; [exfalso|lia].
       destruct (positive_path f e N C HeG Hpos) as (p & Hp & Hall).
       destruct (find_complete f N C F p Hp) as (e' & He' & Hle). specialize (Hall e' He'). lia.
+    - exfalso. exact (find_nosink f F).
+  Qed.
+
+  (* Without conservation: for ANY non-negative flow the loop terminates within #positive edges rounds, every returned
+     path is a source-to-sink path of the graph with a positive weight, and no edge is explained beyond its flow. *)
+  Theorem peel_routes : forall fuel f, nonneg f -> (npos f < fuel)%nat ->
+    exists D, peel find fuel f = PeelOK D /\
+              Forall (fun pw => ss_path (fst pw) /\ 0 < snd pw) D /\
+              (forall e, In e G -> 0 <= explained D e <= f e) /\
+              (length D <= npos f)%nat.
+  Proof.
+    induction fuel as [|k IH]; intros f N Hf; [lia|]. cbn [peel].
+    destruct (find f) as [b p| |] eqn:F.
+    - destruct (find_sound f b p N F) as (Hb & Hp & Hmin & Hex).
+      assert (HG : incl (pairs p) G) by (destruct Hp as (_ & HG & _); exact HG).
+      pose proof (npos_sub_lt f b p N HG Hb Hmin Hex) as Hlt.
+      destruct (IH (sub f b p)) as (D & HD & HF & He & HL).
+      + apply sub_nonneg; [assumption|assumption|lia].
+      + lia.
+      + rewrite HD. exists ((p, b) :: D). repeat split.
+        * constructor; [split; assumption|assumption].
+        * specialize (He e H). unfold explained in *. cbn [sumL fold_right fst snd]. unfold sumL in He.
+          destruct (memE e (pairs p)); cbn [ind1]; lia.
+        * specialize (He e H). unfold explained in *. cbn [sumL fold_right fst snd]. unfold sumL in He.
+          unfold sub in He. lia.
+        * cbn [length]. lia.
+    - exists []. repeat split; [constructor|cbn; lia|cbn; apply N; assumption|cbn; lia].
     - exfalso. exact (find_nosink f F).
   Qed.
 
